@@ -1,6 +1,8 @@
 package props
 
 import (
+	"bytes"
+	"crypto/x509"
 	"encoding/hex"
 	"fmt"
 	"regexp"
@@ -174,6 +176,54 @@ func TestC11(t *testing.T) {
 		gen.Sample("honest", map[string]any{"labels": d.String(), "auth": len(w.Q.Auth), "quote_len": len(w.Raw), "levels": len(w.TcbInfo.Levels), "qe_levels": len(w.QeID.Levels)})
 	})
 	// The genuine Intel samples under the embedded root at their reference time.
+	// DER is binary: a CRL (or a certificate of an issuer chain) whose last bytes - the low bytes of its ECDSA signature
+	// - happen to be a line break, a blank, a NUL, "==" is the same authentic document, and the honest quote is accepted
+	gen.Direct(t, "signed-documents-whose-bytes-end-like-text", func(t *testing.T) {
+		i := 0
+		for _, suffix := range []string{"\r\n", "\n\n", "\n", "\r", " ", "\x00", "\t", "=", "\xff"} {
+			for _, target := range []string{"root-crl", "pck-crl"} {
+				i++
+				if !gen.ShardOwns(i) {
+					continue
+				}
+				w := gen.NewWorld(gen.NewPKI(gen.PKISpec{Seed: gen.PKISeeds[i%len(gen.PKISeeds)]}), gen.NewStream(gen.Seed()+uint64(i), "c11end"))
+				w.HonestCollateral()
+				w.Build()
+				u, key := gen.RootCrlURL, w.PKI.Root.Key
+				if target == "pck-crl" {
+					u, key = gen.PckCrlURL(w.IssuerCA()), w.PKI.Int.Key
+				}
+				r := w.Resp[u]
+				der, ok := gen.ResignEndingWith(r.Body, key, []byte(suffix), 600000)
+				if !ok {
+					gen.Inconclusive(fmt.Sprintf("no signature ending in %q found for the %s", suffix, target))
+					continue
+				}
+				if _, err := x509.ParseRevocationList(der); err != nil || !bytes.HasSuffix(der, []byte(suffix)) {
+					gen.HarnessError(t, "re-signed CRL does not parse or does not end as wanted: %v", err)
+				}
+				r.Body = der
+				w.Resp[u] = r
+				for _, viaRaw := range []bool{true, false} {
+					o := w.Options(gen.LvlCRL, w.NewGetter(), nil)
+					gen.Eval()
+					var v gen.Verdict
+					if viaRaw {
+						v = gen.Call(func() error { return verify.RawTdxQuote(w.Raw, o) })
+					} else {
+						m := w.Q.ToProto()
+						v = gen.Call(func() error { return verify.TdxQuote(m, o) })
+					}
+					if !v.Accepted() {
+						gen.Fail(t, gen.Violation{Key: "rejects-honest:document-ending-like-text:" + target, Oracle: "every honest in-date quote is accepted at every level", Detail: fmt.Sprintf("the %s (authentic, in date) ends in the bytes %q: %s", target, suffix, v), Replay: w.CaseFile(gen.LvlCRL, nil, nil, nil, "accept")})
+						return
+					}
+				}
+				gen.NonTrivial("c11end", suffix, target)
+			}
+		}
+		gen.Class("signed-documents-ending-like-text")
+	})
 	gen.Direct(t, "intel-samples", func(t *testing.T) {
 		ref := time.Date(2023, time.July, 1, 1, 0, 0, 0, time.UTC)
 		ts := &verify.TimeSet{PckCertChain: ref, TcbInfo: ref, QeIdentity: ref, PckCrl: ref, RootCaCrl: ref}
